@@ -44,6 +44,10 @@ func main() {
 		for _, id := range ids {
 			fmt.Println(id)
 		}
+	case "callees":
+		os.Exit(cmdCallees(os.Args[2:]))
+	case "callpath":
+		os.Exit(cmdCallPath(os.Args[2:]))
 	case "selftest":
 		os.Exit(cmdSelfTest(os.Args[2:]))
 	default:
